@@ -165,6 +165,16 @@ def run(ctx: Ctx):
             t = ast.unparse(lou.node)
             ok = ast.unparse(s.arg("objective")) == "modularity" and "for comm in communities:" in t and "communities = [c for c in comm_nodes.values() if c]" in t
             ctx.ob("C15-O3", "R5 PAIRING", lou, "reported modularity is a fold over the returned communities (all non-empty member sets)", ok, "", node=s.call)
+            folds = [n for n in own_nodes(lou.node) if isinstance(n, ast.AugAssign) and ast.unparse(n.target) == "modularity"]
+            okf = len(folds) == 1
+            if okf:
+                fn_ = cfg.node_of(folds[0]) if False else cfg_of(lou.node).node_of(folds[0])
+                lp_ = fn_.loop
+                lcfg_ = cfg_of(lou.node)
+                inside = {id(x) for x in ast.walk(lp_.ast)} if lp_ is not None and lp_.kind == "for" else set()
+                gs = [b for b in lcfg_.guards(fn_) if b.test.kind == "test" and id(b.test.ast) in inside]
+                okf = lp_ is not None and lp_.kind == "for" and ast.unparse(lp_.ast.iter) == "communities" and not gs
+            ctx.ob("C15-O3", "R12 NO-CARDINALITY-CUTOFF", lou, "every returned community contributes its term to the reported modularity (internal edges minus the null-model term), unconditionally", bool(okf), "a community that is skipped (e.g. singletons: 'no internal edges') also loses its null-model term -resolution*(deg/2m)^2, so the reported value is not the partition's modularity", node=folds[0] if folds else s.call)
 
     # the null-model term is linear in `resolution` wherever it is used (gain of a move, gain of staying, final modularity)
     def depends_on_resolution(e, depth=0):
@@ -396,6 +406,14 @@ def _v_louvain_one_degree(tree):
     M.replace_stmt(g, lambda s: isinstance(s, ast.AugAssign) and M.src_is(s.target, "degree[w]"), [])
 
 
+def _v_louvain_skips_singletons(tree):
+    g = M.find_func(tree, "louvain")
+    loops = [n for n in ast.walk(g) if isinstance(n, ast.For) and M.src_is(n.iter, "communities")]
+    if not loops:
+        raise M.Skip("modularity loop not found")
+    loops[0].body = M.stmts("if len(comm) < 2:\n    continue") + loops[0].body
+
+
 def _v_louvain_ordered_labels(tree):
     g = M.find_func(tree, "louvain")
     M.replace_stmt(g, lambda s: isinstance(s, ast.Assign) and M.src_is(s.targets[0], "edges_within"), M.stmts("edges_within = sum(adj[v].get(w, 0.0) for v in comm for w in comm if v < w)"))
@@ -444,6 +462,7 @@ VARIANTS = [
     M.Variant("kcore(k) uses a strict threshold", KC, _v_kcore_gt, "C15-O2"),
     M.Variant("louvain forgets to add the degree to the new community", CM, _v_louvain_degree, "C15-O3"),
     M.Variant("louvain counts internal edges with `v < w` on the labels (original defect)", CM, _v_louvain_ordered_labels, "C15-O3"),
+    M.Variant("the modularity fold skips singleton communities, null-model term included (seed C15-M)", CM, _v_louvain_skips_singletons, "C15-O3"),
     M.Variant("DFS roots are marked with None, a legal node label (original defect)", AR, _v_root_marked_none, "C15-O5"),
     M.Variant("louvain never clears its `improved` flag: the sweep loop cannot end", CM, _v_louvain_flag_never_cleared, "C15-G2"),
     M.Variant("pagerank does not hand the new vector over to the next sweep", PR, _v_pagerank_no_handover, "C15-O4"),
